@@ -145,16 +145,20 @@ func c08Matrix(r *R, prop string) {
 		if i == 0 && (cell.tree == 3 || cell.tree == 4) {
 			m1 := w.NewMaker("c0", func(n int, ctx vivid.SupervisionContext) vivid.SupervisionDecision { return vivid.SupervisionDecisionEscalate })
 			escalators["/sup/c0"] = m1
-			c.Strategy = vivid.OneForOneStrategy(m1)
+			// the escalating supervisor uses the cell's strategy too and has a healthy second child: under one-for-all
+			// it suspends that sibling before escalating, and whoever decides above must resume it
+			c.Strategy = mkStrategy(m1)
+			c.Children = append(c.Children, mk("s"))
+			all = append(all, cp+"/s")
 			d1 := mk("d")
 			all = append(all, cp+"/d")
 			if cell.tree == 4 {
 				m2 := w.NewMaker("d", func(n int, ctx vivid.SupervisionContext) vivid.SupervisionDecision { return vivid.SupervisionDecisionEscalate })
 				escalators["/sup/c0/d"] = m2
-				d1.Strategy = vivid.OneForOneStrategy(m2)
+				d1.Strategy = mkStrategy(m2)
 				e1 := mk("e")
-				d1.Children = append(d1.Children, e1)
-				all = append(all, cp+"/d/e")
+				d1.Children = append(d1.Children, e1, mk("s"))
+				all = append(all, cp+"/d/e", cp+"/d/s")
 			}
 			c.Children = append(c.Children, d1)
 		}
@@ -412,7 +416,8 @@ func c08Matrix(r *R, prop string) {
 		}
 		// (c) everybody else: no lifecycle message beyond the first OnLaunch, uninterrupted numbered stream
 		for _, p := range append([]string{"/bystander"}, all...) {
-			if isTargetTree(p) || (stopsSup && under(p, "/sup")) {
+			// under Resume nobody changes incarnation and every numbered stream continues, targets included
+			if effective != vivid.SupervisionDecisionResume && (isTargetTree(p) || (stopsSup && under(p, "/sup"))) {
 				continue
 			}
 			if under(F, p) && p != F {
@@ -811,8 +816,14 @@ func c09Zombie(r *R) {
 		return
 	}
 	// release
+	twice := false
 	if release == 0 {
 		w.Sys.Kill(zref, r.Chance(50), "release the zombie")
+		if r.Chance(50) {
+			// a repeated kill must not release (and report) the zombie a second time
+			twice = true
+			w.Sys.Kill(zref, r.Chance(50), "release the zombie again")
+		}
 	} else {
 		w.Sys.Kill(w.RefBy("create", nil, "/sup"), r.Chance(50), "terminate the parent")
 	}
@@ -836,6 +847,21 @@ func c09Zombie(r *R) {
 		}
 	}
 	_ = restarted
+	// exactly one termination notice for the released zombie
+	nEvt, nParent := 0, 0
+	for _, e := range w.Events() {
+		if e.Path == "@obs" && e.Kind == "Evt:ActorKilled" && e.Ref == "/sup/z" {
+			nEvt++
+		}
+		if e.Path == "/sup" && e.Kind == "OnKilled" && e.Ref == "/sup/z" {
+			nParent++
+		}
+	}
+	if nEvt != 1 || (release == 0 && nParent != 1) || nParent > 1 {
+		r.Fail(fmt.Sprintf("C09/zombie-release-notices events=%d parent=%d killed-twice=%v", nEvt, nParent, twice), "the released zombie produced %d ActorKilledEvent(s) and %d OnKilled at its parent (released by %s, killed twice: %v)", nEvt, nParent, []string{"explicit kill", "parent termination"}[release], twice)
+		w.DumpNotes(300)
+		return
+	}
 	r.Count("zombie-checked")
 }
 
